@@ -1,6 +1,7 @@
-(* REGENERATED from src/mxlpy/symbolic/symbolic_model.py (to_symbolic_model, SymbolicModel.jacobian) and
+(* REGENERATED from src/mxlpy/symbolic/symbolic_model.py (to_symbolic_model, SymbolicModel.jacobian),
+   src/mxlpy/meta/sympy_tools.py (list_of_symbols) and
    src/mxlpy/simulator.py (Simulator._initialise_integrator) by harness/c12.py; do not edit.
    An unrecognised shape yields a *Unknown constructor, which breaks C12_facts_pinned. *)
 From Symbolic Require Import SymModel.
 Definition gen_sym_facts : sym_facts :=
-  mkSymFacts OrdDependency SymVarsParsData StatFloatTimesRate DynCoefTimesRate EqsByVarNames JacEqsByVars LamTimeVarsPars ThirdNumericByName FallbackWarnAnyException TimeShifted.
+  mkSymFacts OrdDependency SymVarsParsData StatFloatTimesRate DynCoefTimesRate EqsByVarNames JacEqsByVars LamTimeVarsPars ThirdNumericByName FallbackWarnAnyException TimeShifted VarSymPlain.
